@@ -106,6 +106,119 @@ func (e *emitter) c04FlowDef(s *source, body *ast.BlockStmt, lean, doc string, k
 	e.stringList(lean, doc, c04Flow(s, body, keys))
 }
 
+
+// c04Detail lists every statement of a block with its control structure: `if <cond> {` … `}` [`else {` … `}`],
+// `range <x> {` … `}`, `for <cond> {` … `}`, and the source text of every simple statement.  For small functions
+// whose every statement matters to the property (option setters, addRoutes, Flush).
+func c04Detail(s *source, list []ast.Stmt, out *[]string) {
+	for _, st := range list {
+		switch x := st.(type) {
+		case *ast.IfStmt:
+			hdr := "if "
+			if x.Init != nil {
+				hdr += s.src(x.Init) + "; "
+			}
+			*out = append(*out, hdr+s.src(x.Cond)+" {")
+			c04Detail(s, x.Body.List, out)
+			*out = append(*out, "}")
+			if x.Else != nil {
+				*out = append(*out, "else {")
+				if b, ok := x.Else.(*ast.BlockStmt); ok {
+					c04Detail(s, b.List, out)
+				} else {
+					c04Detail(s, []ast.Stmt{x.Else}, out)
+				}
+				*out = append(*out, "}")
+			}
+		case *ast.RangeStmt:
+			*out = append(*out, "range "+s.src(x.X)+" {")
+			c04Detail(s, x.Body.List, out)
+			*out = append(*out, "}")
+		case *ast.ForStmt:
+			hdr := "for"
+			if x.Cond != nil {
+				hdr += " " + s.src(x.Cond)
+			}
+			*out = append(*out, hdr+" {")
+			c04Detail(s, x.Body.List, out)
+			*out = append(*out, "}")
+		case *ast.BlockStmt:
+			c04Detail(s, x.List, out)
+		default:
+			*out = append(*out, s.src(st))
+		}
+	}
+}
+
+// c04Guarded lists, in source order, every simple statement under `list` that contains one of the keys, prefixed by
+// the conditions / range headers it is nested in ("if A { range xs { stmt").
+func c04Guarded(s *source, list []ast.Stmt, guard string, keys []string, out *[]string) {
+	for _, st := range list {
+		switch x := st.(type) {
+		case *ast.IfStmt:
+			g := guard + "if " + s.src(x.Cond) + " { "
+			if x.Init != nil {
+				c04Guarded(s, []ast.Stmt{x.Init}, guard, keys, out)
+			}
+			c04Guarded(s, x.Body.List, g, keys, out)
+			if x.Else != nil {
+				ge := guard + "if !(" + s.src(x.Cond) + ") { "
+				if b, ok := x.Else.(*ast.BlockStmt); ok {
+					c04Guarded(s, b.List, ge, keys, out)
+				} else {
+					c04Guarded(s, []ast.Stmt{x.Else}, ge, keys, out)
+				}
+			}
+		case *ast.RangeStmt:
+			c04Guarded(s, x.Body.List, guard+"range "+s.src(x.X)+" { ", keys, out)
+		case *ast.ForStmt:
+			c04Guarded(s, x.Body.List, guard+"for { ", keys, out)
+		case *ast.BlockStmt:
+			c04Guarded(s, x.List, guard, keys, out)
+		default:
+			txt := s.src(st)
+			for _, k := range keys {
+				if strings.Contains(txt, k) {
+					*out = append(*out, guard+txt)
+					break
+				}
+			}
+		}
+	}
+}
+
+func (e *emitter) c04DetailDef(s *source, rel, goName, lean string, lit func(fd *ast.FuncDecl) *ast.BlockStmt) {
+	fd := s.findFunc(rel, goName)
+	if fd == nil {
+		e.errors = append(e.errors, "function "+goName+" not found in "+rel)
+		e.stringList(lean, "MISSING: "+goName, []string{"MISSING"})
+		return
+	}
+	body := fd.Body
+	if lit != nil {
+		if body = lit(fd); body == nil {
+			e.errors = append(e.errors, "closure of "+goName+" not found in "+rel)
+			e.stringList(lean, "MISSING closure: "+goName, []string{"MISSING"})
+			return
+		}
+	}
+	var out []string
+	c04Detail(s, body.List, &out)
+	e.stringList(lean, "statements of `"+goName+"` in "+rel, out)
+}
+
+func (e *emitter) c04GuardedDef(s *source, rel, goName, lean string, keys []string) {
+	fd := s.findFunc(rel, goName)
+	if fd == nil {
+		e.errors = append(e.errors, "function "+goName+" not found in "+rel)
+		e.stringList(lean, "MISSING: "+goName, []string{"MISSING"})
+		return
+	}
+	var out []string
+	c04Guarded(s, fd.Body.List, "", keys, &out)
+	e.stringList(lean, "guarded statements of `"+goName+"` in "+rel+" mentioning "+strings.Join(keys, " / "), out)
+}
+
 func init() {
 	register("C04", func(s *source, e *emitter) {
 		const th = "rest/handler/timeouthandler.go"
@@ -124,16 +237,50 @@ func init() {
 		t := &translator{registry: map[string]*transFunc{}, consts: map[string]string{"time.Millisecond": "1000000"}}
 		e.translated(t, s, eng, "engine.checkedTimeout", "checkedTimeout", false, "")
 
+
+		// REST engine wiring: which duration reaches TimeoutHandler for a route
+		const srvgo = "rest/server.go"
+		lit1 := func(fd *ast.FuncDecl) *ast.BlockStmt {
+			if fl := c04FuncLit(fd, 1, 0); fl != nil {
+				return fl.Body
+			}
+			return nil
+		}
+		e.c04DetailDef(s, srvgo, "WithTimeout", "withTimeoutOpt", lit1)
+		e.c04DetailDef(s, srvgo, "WithSSE", "withSSEOpt", lit1)
+		e.c04DetailDef(s, srvgo, "Server.AddRoutes", "serverAddRoutes", nil)
+		e.c04DetailDef(s, eng, "engine.addRoutes", "engAddRoutes", nil)
+		e.c04GuardedDef(s, eng, "newEngine", "engNewTimeout", []string{"timeout"})
+		e.c04GuardedDef(s, eng, "engine.buildChainWithNativeMiddlewares", "engTimeoutWiring", []string{"TimeoutHandler", "Timeout"})
+		e.c04GuardedDef(s, eng, "engine.bindRoute", "engBindRouteChain", []string{"chn"})
+		e.c04GuardedDef(s, eng, "engine.bindFeaturedRoutes", "engBindFeatured", []string{"bindRoute("})
+		e.c04GuardedDef(s, eng, "engine.bindRoutes", "engBindRoutes", []string{"bindFeaturedRoutes("})
+
+		// zrpc wiring: configuration -> interceptors
+		e.c04GuardedDef(s, "zrpc/server.go", "setupUnaryInterceptors", "zrpcSrvWiring", []string{"UnaryTimeoutInterceptor"})
+		e.c04GuardedDef(s, "zrpc/client.go", "NewClient", "zrpcCliConf", []string{"WithTimeout(", "options..."})
+		e.c04DetailDef(s, "zrpc/client.go", "WithCallTimeout", "zrpcWithCallTimeout", nil)
+		e.c04DetailDef(s, "zrpc/internal/client.go", "WithTimeout", "zrpcCliWithTimeoutOpt", lit1)
+		e.c04GuardedDef(s, "zrpc/internal/client.go", "client.buildDialOptions", "zrpcCliDialOptions", []string{"cliOpts"})
+		e.c04GuardedDef(s, "zrpc/internal/client.go", "client.buildUnaryInterceptors", "zrpcCliWiring", []string{"TimeoutInterceptor"})
+
+		// the default error path of the timeout branch, and the pass-through methods of timeoutWriter
+		e.c04GuardedDef(s, "rest/httpx/responses.go", "ErrorCtx", "httpxErrorCtx", []string{"doHandleError"})
+		e.c04GuardedDef(s, "rest/httpx/responses.go", "doHandleError", "httpxDefaultError", []string{"fn(w, err)"})
+		e.c04DetailDef(s, th, "timeoutWriter.Hijack", "twHijackDetail", nil)
+		e.c04DetailDef(s, th, "timeoutWriter.Push", "twPushDetail", nil)
+
 		// REST
 		b := e.c04Shape(s, th, "TimeoutHandler", "timeoutHandlerCtorShape", nil)
 		_ = b
 		b = e.c04Shape(s, th, "timeoutHandler.ServeHTTP", "serveHTTPShape", nil)
 		e.c04FlowDef(s, b, "serveHTTPFlow", "context/writer flow of timeoutHandler.ServeHTTP",
-			[]string{"context.WithTimeout", "WithContext(", "ServeHTTP(", "ErrorCtx(", "timedOut", "w.Write", "dst[k]", "WriteString", "&timeoutWriter"})
+			[]string{"context.WithTimeout", "WithContext(", "ServeHTTP(", "ErrorCtx(", "timedOut", "w.Write", "dst[k]", "WriteString", "&timeoutWriter", "make(chan", "panicChan <-", "close(done)", "panic(p)"})
 		e.c04Shape(s, th, "timeoutWriter.Write", "twWriteShape", nil)
 		e.c04Shape(s, th, "timeoutWriter.WriteHeader", "twWriteHeaderShape", nil)
 		e.c04Shape(s, th, "timeoutWriter.writeHeaderLocked", "twWriteHeaderLockedShape", nil)
 		e.c04Shape(s, th, "timeoutWriter.Flush", "twFlushShape", nil)
+		e.c04DetailDef(s, th, "timeoutWriter.Flush", "twFlushDetail", nil)
 		e.c04Shape(s, th, "timeoutWriter.Header", "twHeaderShape", nil)
 
 		// zRPC server: the interceptor closure (4 parameters)
